@@ -230,6 +230,9 @@ fn write_forwarded_suffix(
 /// `identity`, ...) and forwards the field verbatim either way. Sōzu and the
 /// backend can then disagree on where the body ends (RFC 9112 §6.1, §6.3):
 /// only a single `chunked` coding, on HTTP/1.1, is unambiguous.
+///
+/// Kawa reads `Content-Length` with `str::parse::<usize>`, which accepts a
+/// leading `+` that RFC 9110 §8.6 (`1*DIGIT`) does not, and forwards it as is.
 fn invalid_h1_request_head(request: &GenericHttpStream) -> Option<&'static str> {
     let version = match &request.detached.status_line {
         kawa::StatusLine::Request { version, .. } => version,
@@ -247,7 +250,13 @@ fn invalid_h1_request_head(request: &GenericHttpStream) -> Option<&'static str> 
         if header.is_elided() {
             continue;
         }
-        if compare_no_case(header.key.data(buf), b"transfer-encoding") {
+        let key = header.key.data(buf);
+        if compare_no_case(key, b"content-length") {
+            let value = header.val.data(buf);
+            if value.is_empty() || !value.iter().all(u8::is_ascii_digit) {
+                return Some("Content-Length is not a decimal number");
+            }
+        } else if compare_no_case(key, b"transfer-encoding") {
             transfer_encodings += 1;
             if matches!(version, kawa::Version::V10) {
                 return Some("Transfer-Encoding in an HTTP/1.0 request");
